@@ -776,6 +776,93 @@ theorem recreatePrograms_distinct (fbs : List FbDef) (ps : List ProgDef) :
           omega
         · exact ih _ s' h hnd.2 (fun p hp => hvars p (by simp [hp])) p q id hp' hq' hgp hgq
 
+/-- Instances nested in a program instance are never some program's own instance: ids are
+allocated in creation order (program, then its FB variables, then the next program). -/
+theorem recreatePrograms_nested_ne (fbs : List FbDef) (ps : List ProgDef) :
+    ∀ (s s' : Storage), recreatePrograms fbs s ps = .ok s' → (ps.map (·.name)).Nodup →
+      (∀ p, p ∈ ps → (p.vars.map (·.name)).Nodup) →
+      ∀ p q d ty idp idq j, p ∈ ps → q ∈ ps → d ∈ p.vars → d.init = .fb ty →
+        s'.getGlobal p.name = some (.inst idp) → s'.getGlobal q.name = some (.inst idq) →
+        s'.getInstVar idp d.name = some (.inst j) → j ≠ idq := by
+  induction ps with
+  | nil => intro s s' _ _ _ p q d ty idp idq j hp; cases hp
+  | cons p0 rest ih =>
+    intro s s' h hnd hvars p q d ty idp idq j hp hq hd hi hgp hgq hj
+    simp only [List.map_cons, List.nodup_cons] at hnd
+    simp only [recreatePrograms] at h
+    cases hc : createProgramInstance fbs s p0 with
+    | error e => rw [hc] at h; cases h
+    | ok r =>
+      obtain ⟨s1, id0⟩ := r
+      rw [hc] at h
+      dsimp only at h
+      obtain ⟨hid, hlt, hext, hsome, hcont⟩ :=
+        createProgramInstance_spec fbs s s1 p0 id0 hc (hvars p0 (by simp))
+      obtain ⟨t1, t2, t3⟩ := recreatePrograms_spec fbs rest _ s' h hnd.2
+        (fun p hp => hvars p (by simp [hp]))
+      have head : s'.getGlobal p0.name = some (.inst id0) := by rw [t2 _ hnd.1]; simp
+      -- a program of the tail: its instance and its nested instances are above `s1.nextId`
+      have tail_id : ∀ r, r ∈ rest → ∀ i, s'.getGlobal r.name = some (.inst i) → s1.nextId ≤ i := by
+        intro r hr i hgi
+        obtain ⟨i', hpost⟩ := t3 r hr
+        have : i' = i := by
+          have := hpost.1.symm.trans hgi
+          injection this with this; injection this
+        subst this
+        have := hpost.2.1; simpa using this
+      have tail_nested : ∀ r, r ∈ rest → ∀ i d' ty' j', s'.getGlobal r.name = some (.inst i) →
+          d' ∈ r.vars → d'.init = .fb ty' → s'.getInstVar i d'.name = some (.inst j') →
+          s1.nextId ≤ j' := by
+        intro r hr i d' ty' j' hgi hd' hi' hj'
+        obtain ⟨i', hpost⟩ := t3 r hr
+        have : i' = i := by
+          have := hpost.1.symm.trans hgi
+          injection this with this; injection this
+        subst this
+        have := hpost.2.2.2.2 d' hd'
+        simp only [hi'] at this
+        obtain ⟨j2, _, a1, a2, _⟩ := this
+        have : j2 = j' := by
+          have := a1.symm.trans hj'
+          injection this with this; injection this
+        subst this
+        simpa using a2
+      -- the head program: its nested instances lie strictly between `id0` and `s1.nextId`
+      have head_nested : ∀ d' ty' j', d' ∈ p0.vars → d'.init = .fb ty' →
+          s'.getInstVar id0 d'.name = some (.inst j') → id0 < j' ∧ j' < s1.nextId := by
+        intro d' ty' j' hd' hi' hj'
+        have := hcont d' hd'
+        simp only [hi'] at this
+        obtain ⟨j2, _, a1, a2, a3, _⟩ := this
+        have e : s'.getInstVar id0 d'.name = s1.getInstVar id0 d'.name := by
+          rw [t1.getInstVar id0 d'.name (by simp; omega)]; rfl
+        have : j2 = j' := by
+          have := a1.symm.trans (e ▸ hj')
+          injection this with this; injection this
+        subst this
+        exact ⟨by omega, a3⟩
+      rcases List.mem_cons.1 hp with rfl | hp'
+      · have e1 : id0 = idp := by
+          have := head.symm.trans hgp
+          injection this with this; injection this
+        subst e1
+        obtain ⟨b1, b2⟩ := head_nested d ty j hd hi hj
+        rcases List.mem_cons.1 hq with rfl | hq'
+        · have e2 : id0 = idq := by
+            have := head.symm.trans hgq
+            injection this with this; injection this
+          omega
+        · have := tail_id q hq' idq hgq
+          omega
+      · rcases List.mem_cons.1 hq with rfl | hq'
+        · have e2 : id0 = idq := by
+            have := head.symm.trans hgq
+            injection this with this; injection this
+          have := tail_nested p hp' idp d ty j hgp hd hi hj
+          omega
+        · exact ih _ s' h hnd.2 (fun p hp => hvars p (by simp [hp])) p q d ty idp idq j hp' hq' hd hi
+            hgp hgq hj
+
 /-! ### fifth loop -/
 
 theorem restoreProgVars_frame (l : List (Nat × Nat × Val)) :
@@ -1403,6 +1490,79 @@ theorem cold_paths (fbs : List FbDef) (metas : List GlobalMeta) (progs : List Pr
           simp [Storage.getInstVar, a5]
         rw [this]
 
+/-- After any restart an FB-typed program variable holds a NEW instance whose members have their
+initial values (provided the old value was an instance handle, i.e. not retainable). -/
+theorem restart_program_fb (mode : Mode) (rt rt' : Runtime) (hwf : WF rt)
+    (h : restart mode rt = .ok rt') (p : ProgDef) (hp : p ∈ rt.programs) (d : VarDef)
+    (hd : d ∈ p.vars) (ty : Nat) (hi : d.init = .fb ty)
+    (hold : ∀ v, rt.progVar p.name d.name = some v → v.retainable = false) :
+    ∃ fb, findFb rt.fbs ty = some fb ∧ readPP rt'.storage p.name d.name none = some (.inst 0) ∧
+      ∀ k, readPP rt'.storage p.name d.name (some k) = (aget (membersMap [] fb.members) k).map obsVal := by
+  obtain ⟨s1, s2, h1, h2, h3⟩ := restart_decompose mode rt rt' h
+  obtain ⟨_, _, t3⟩ := recreatePrograms_spec rt.fbs rt.programs s1 s2 h2 hwf.progsNodup hwf.varsNodup
+  obtain ⟨id, q1, q2, q3, q4, q5⟩ := t3 p hp
+  have hdist := recreatePrograms_distinct rt.fbs rt.programs s1 s2 h2 hwf.progsNodup hwf.varsNodup
+  have hnest := recreatePrograms_nested_ne rt.fbs rt.programs s1 s2 h2 hwf.progsNodup hwf.varsNodup
+  have post := q5 d hd
+  simp only [hi] at post
+  obtain ⟨j, fb, a1, a2, a3, a4, a5⟩ := post
+  have hst : rt'.storage = { restoreProgVars s2 (retainedPvOf mode rt) with frames := 0 } := by rw [h3]
+  have hgl : ∀ n, rt'.storage.getGlobal n = s2.getGlobal n := by
+    intro n; rw [hst]; simp [Storage.getGlobal, (restoreProgVars_frame _ s2).1]
+  -- the programs the collected triples name
+  have triple_prog : ∀ t, t ∈ retainedPvOf mode rt → ∃ q, q ∈ rt.programs ∧ t.1 = q.name ∧
+      ∃ oid d', rt.storage.getGlobal q.name = some (.inst oid) ∧ d' ∈ q.vars ∧ d'.name = t.2.1 ∧
+        rt.storage.getInstVar oid d'.name = some t.2.2 ∧ t.2.2.retainable = true := by
+    intro t ht
+    unfold retainedPvOf at ht
+    cases hw : mode.isWarm with
+    | false => simp [hw] at ht
+    | true =>
+      simp only [hw, if_true] at ht
+      obtain ⟨q, hq, oid, hgo, hmem⟩ := (mem_collectRetainedProgVars _ _ _).1 ht
+      obtain ⟨hq1, d', hd', hn', _, hv', hret'⟩ := (mem_collectProgVars _ _ _ _ _).1 hmem
+      exact ⟨q, hq, hq1, oid, d', hgo, hd', hn', hv', hret'⟩
+  -- the variable itself is not overwritten by the fifth loop
+  have hvar : rt'.storage.getInstVar id d.name = some (.inst j) := by
+    rw [hst]
+    show (restoreProgVars s2 (retainedPvOf mode rt)).getInstVar id d.name = _
+    rw [restoreProgVars_value id d.name .null _ s2 q4]
+    · have : ¬ ∃ t, t ∈ retainedPvOf mode rt ∧ s2.getGlobal t.1 = some (.inst id) ∧ t.2.1 = d.name := by
+        rintro ⟨t, ht, hres, hname⟩
+        obtain ⟨q, hq, hq1, oid, d', hgo, hd', hn', hv', hret'⟩ := triple_prog t ht
+        have hqp : q.name = p.name := hdist q p id hq hp (by rw [← hq1]; exact hres) q1
+        have hqeq : q = p := nodup_map_inj (·.name) _ hwf.progsNodup q p hq hp hqp
+        subst hqeq
+        have hdd : d' = d := nodup_map_inj (·.name) _ (hwf.varsNodup q hq) d' d hd' hd (hn'.trans hname)
+        subst hdd
+        have := hold t.2.2 (by unfold Runtime.progVar; rw [hgo]; exact hv')
+        rw [this] at hret'; cases hret'
+      simp only [this, if_false]; exact a1
+    · intro t ht hres hname
+      exfalso
+      obtain ⟨q, hq, hq1, oid, d', hgo, hd', hn', hv', hret'⟩ := triple_prog t ht
+      have hqp : q.name = p.name := hdist q p id hq hp (by rw [← hq1]; exact hres) q1
+      have hqeq : q = p := nodup_map_inj (·.name) _ hwf.progsNodup q p hq hp hqp
+      subst hqeq
+      have hdd : d' = d := nodup_map_inj (·.name) _ (hwf.varsNodup q hq) d' d hd' hd (hn'.trans hname)
+      subst hdd
+      have := hold t.2.2 (by unfold Runtime.progVar; rw [hgo]; exact hv')
+      rw [this] at hret'; cases hret'
+  -- the nested instance is not written either
+  have hinst : rt'.storage.getInstance j = s2.getInstance j := by
+    rw [hst]
+    show (restoreProgVars s2 (retainedPvOf mode rt)).getInstance j = _
+    apply restoreProgVars_getInstance_other
+    intro t idq ht hres
+    obtain ⟨q, hq, hq1, _⟩ := triple_prog t ht
+    exact fun e => hnest p q d ty id idq j hp hq hd hi q1 (by rw [← hq1]; exact hres) a1 e.symm
+  refine ⟨fb, a4, ?_, ?_⟩
+  · unfold readPP; rw [hgl, q1]; simp [hvar, obsVal]
+  · intro k
+    unfold readPP; rw [hgl, q1]
+    simp only [hvar]
+    simp [Storage.getInstVar, hinst, a5]
+
 /-! ### the build sequence, storage part -/
 
 def GlobalDecl.toMeta (g : GlobalDecl) : GlobalMeta := { name := g.name, retain := g.retain, init := g.init }
@@ -1528,6 +1688,12 @@ theorem build_spec_meta (src : Source) (fr : Runtime) (h : build src = some fr) 
         · injection h with h
           subst h
           simp [List.map_map, Function.comp_def]
+
+/-- Guard "SINGLE initial values FALSE": the fresh runtime seeds `last_single` with FALSE for every
+task (no SINGLE variable, or one that is not TRUE right after the build). -/
+def SingleInitFalse (src : Source) (fr : Runtime) : Prop :=
+  ∀ t, t ∈ src.tasks → registerTaskState fr.storage 0 t.single = newTaskState 0
+
 
 /-! ### concrete witnesses (the harness replays the same projects on the real runtime, cases 0-5) -/
 
